@@ -152,4 +152,72 @@ inline bool writeWith(const W &w, const std::vector<pw::Leaf> &lv, Bytes &bytes,
 }
 
 
+// ---------------------------------------------------------------------------------------------
+// Controllable run of a write history (C18 / C19): custom sink, abort after k API calls, status log.
+struct WriteCtl {
+  FILE *sink = nullptr;        // non-NULL: carquet_writer_create_file on this stream; else path-based
+  std::string path;            // path used by the path-based writer (filled in)
+  long abort_after = -1;       // >= 0: call carquet_writer_abort after that many write_batch/new_row_group calls
+  bool created = false, aborted = false, closed = false;
+  long calls = 0;              // write_batch + new_row_group calls made
+  bool any_nonok = false;      // some writer call (create/write_batch/new_row_group/close) reported failure
+  carquet_status_t close_status = CARQUET_OK;
+  std::string first_failure;
+};
+inline void runHistory(const W &w, const std::vector<pw::Leaf> &lv, WriteCtl &ctl) {
+  carquet_error_t e = CARQUET_ERROR_INIT;
+  carquet_schema_t *s = carquet_schema_create(&e);
+  if (!s) { ctl.any_nonok = true; ctl.first_failure = "schema_create"; return; }
+  struct FrS { carquet_schema_t *s; ~FrS() { carquet_schema_free(s); } } frs{s};
+  for (auto &lf : lv)
+    if (carquet_schema_add_column(s, lf.path.back().c_str(), (carquet_physical_type_t)lf.type, nullptr, lf.max_def ? CARQUET_REPETITION_OPTIONAL : CARQUET_REPETITION_REQUIRED, lf.type == pq::FIXED_LEN_BYTE_ARRAY ? lf.type_length : 0) != CARQUET_OK) { ctl.any_nonok = true; ctl.first_failure = "schema_add_column"; return; }
+  carquet_writer_options_t o; carquet_writer_options_init(&o);
+  o.compression = (carquet_compression_t)w.codec; o.page_size = w.page_size;
+  carquet_writer_t *wr;
+  if (ctl.sink) wr = carquet_writer_create_file(ctl.sink, s, &o, &e);
+  else { if (ctl.path.empty()) ctl.path = rd::tmpPath("out"); wr = carquet_writer_create(ctl.path.c_str(), s, &o, &e); }
+  if (!wr) { ctl.any_nonok = true; ctl.first_failure = "writer_create"; return; }
+  ctl.created = true;
+  uint64_t seed = 0x9E3779B97F4A7C15ull ^ ((uint64_t)w.order << 1 | 1);
+  auto stop_here = [&]() { return ctl.abort_after >= 0 && ctl.calls >= ctl.abort_after; };
+  bool failed = false;
+  for (size_t g = 0; g < w.fs.row_groups.size() && !failed && !stop_here(); g++) {
+    std::vector<size_t> nextb(lv.size(), 0), rowpos(lv.size(), 0), valpos(lv.size(), 0);
+    for (;;) {
+      if (stop_here()) break;
+      std::vector<size_t> open;
+      for (size_t c = 0; c < lv.size(); c++) if (nextb[c] < w.parts[g][c].size()) open.push_back(c);
+      if (open.empty()) break;
+      size_t c = open[gf::dxs(seed) % open.size()];
+      const pw::ChunkSpec &cs = w.fs.row_groups[g][c];
+      size_t k = (size_t)w.parts[g][c][nextb[c]++];
+      size_t nn = 0;
+      std::vector<int16_t> dl;
+      for (size_t i = 0; i < k; i++) { int d = lv[c].max_def ? cs.def[rowpos[c] + i] : 1; dl.push_back((int16_t)d); if (d) nn++; }
+      const int16_t *dlp = (lv[c].max_def && !w.nolevels[g][c]) ? dl.data() : nullptr;
+      carquet_status_t st;
+      if (lv[c].type == pq::BYTE_ARRAY) {
+        std::vector<Bytes> copy(cs.values.begin() + valpos[c], cs.values.begin() + valpos[c] + nn);
+        std::vector<carquet_byte_array_t> arr(nn ? nn : 1);
+        for (size_t i = 0; i < nn; i++) { arr[i].data = copy[i].data(); arr[i].length = (int32_t)copy[i].size(); }
+        st = carquet_writer_write_batch(wr, (int32_t)c, arr.data(), (int64_t)k, dlp, nullptr);
+      } else {
+        Bytes flat; for (size_t i = 0; i < nn; i++) flat.insert(flat.end(), cs.values[valpos[c] + i].begin(), cs.values[valpos[c] + i].end());
+        if (flat.empty()) flat.push_back(0);
+        st = carquet_writer_write_batch(wr, (int32_t)c, flat.data(), (int64_t)k, dlp, nullptr);
+      }
+      ctl.calls++;
+      if (st != CARQUET_OK) { ctl.any_nonok = true; ctl.first_failure = "write_batch -> " + std::to_string((int)st); failed = true; break; }
+      rowpos[c] += k; valpos[c] += nn;
+    }
+    if (failed || stop_here()) break;
+    bool last = g + 1 == w.fs.row_groups.size();
+    if (w.extra_nrg[g] >= 1 || !last) { carquet_status_t st = carquet_writer_new_row_group(wr); ctl.calls++; if (st != CARQUET_OK) { ctl.any_nonok = true; ctl.first_failure = "new_row_group -> " + std::to_string((int)st); failed = true; } }
+  }
+  if (failed || stop_here()) { carquet_writer_abort(wr); ctl.aborted = true; return; }
+  ctl.close_status = carquet_writer_close(wr);
+  ctl.closed = true;
+  if (ctl.close_status != CARQUET_OK) { ctl.any_nonok = true; ctl.first_failure = "close -> " + std::to_string((int)ctl.close_status); }
+}
+
 }  // namespace cw
